@@ -21,8 +21,12 @@ func init() {
 // the same operations from 16 goroutines at once, built with -race by the
 // driver. It is a detector, not an enumeration.
 func checkC10race(ctx *core.Ctx, rep *core.Report) {
-	all := seeds.Load()
 	g := lint.GlobalRegistry()
+	if name := ctx.Args["cold"]; name != "" {
+		c10raceCold(rep, seeds.LoadNamed(name), g, name)
+		return
+	}
+	all := seeds.Load()
 	fr, err := g.Filter(lint.FilterOptions{ExcludeSources: lint.SourceList{lint.RFC5280}})
 	if err != nil {
 		rep.InternalError("%v", err)
@@ -114,5 +118,67 @@ func checkC10race(ctx *core.Ctx, rep *core.Report) {
 	rep.Add("validated", int64(len(work)*G))
 	for m := range mismatch {
 		rep.Violate("C10|free_running|result_differs", "a concurrent call returned something else than the same call made alone: "+m, map[string]interface{}{"op": "free_running", "object": m})
+	}
+}
+
+// c10raceCold: the cold-start variant. Nothing has been linted in this process; 16 goroutines wait at a
+// barrier and then all lint (their own parse of) the SAME object at once, so they run through the same
+// lazily initialised state at the same moment — where a first-use race sits. The sequential reference is
+// computed afterwards.
+func c10raceCold(rep *core.Report, all []seeds.Seed, g lint.Registry, name string) {
+	var sd *seeds.Seed
+	for i := range all {
+		if all[i].Name == name {
+			sd = &all[i]
+		}
+	}
+	if sd == nil {
+		rep.InternalError("cold-start object %q not found", name)
+		return
+	}
+	const G = 16
+	objs := make([]*zl.Obj, G)
+	for i := range objs {
+		o, err := zl.Parse(sd.Kind, sd.DER)
+		if err != nil {
+			return
+		}
+		objs[i] = o
+	}
+	start := make(chan struct{})
+	var wg sync.WaitGroup
+	got := make([]string, G)
+	for w := 0; w < G; w++ {
+		w := w
+		wg.Add(1)
+		go func() {
+			defer wg.Done()
+			defer func() {
+				if r := recover(); r != nil {
+					got[w] = fmt.Sprintf("PANIC %v", r)
+				}
+			}()
+			<-start
+			rs, p := zl.Lint(objs[w], g)
+			if p != nil {
+				got[w] = fmt.Sprintf("PANIC %v", p)
+				return
+			}
+			got[w] = zl.Vector(rs, true)
+		}()
+	}
+	close(start)
+	wg.Wait()
+	o, _ := zl.Parse(sd.Kind, sd.DER)
+	rs, _ := zl.Lint(o, g)
+	ref := zl.Vector(rs, true)
+	rep.Add("states", G)
+	rep.Add("validated", G)
+	for w := range got {
+		if got[w] != ref {
+			rep.Violate("C10|free_running|cold_start_result_differs", "in a fresh process, one of 16 simultaneous first calls returned something else than the same call made alone: "+name,
+				map[string]interface{}{"op": "free_running_cold", "object": name})
+			break
+		}
 	}
 }
